@@ -1,10 +1,103 @@
 import KawinV.Proto
-/-! driver verbs for C08 (stub: no verbs yet) -/
+import KawinV.Model.PBMGrid
+/-!
+driver for the size-class grid model (Float instance).
+
+`grid.run cMin cMax bins minBins maxBins nitems item*` — one line = initial grid + whole sequence.
+items:  reset T|F | add k | change cMin cMax none|bins T|F | adjust T|F | update <list> | backup |
+        revert | setpsd <list> | load <list> | adaptive T|F | mom k <N> <w>   (query, no state change)
+answer: `I <orig...> <state>` then per item `S <state>` (`adjust` appends `R chg newIdx`),
+        `Q ...` for a query, `E` at the first raising operation (the rest is dropped).
+An array equal bit-for-bit to the same array of the previous state is sent as `=`.
+-/
 namespace KawinV.Drv.C08
-open KawinV.Proto
+open KawinV.Proto KawinV.Grid
+
+instance : NatCast Float := ⟨Nat.toFloat⟩
+
+abbrev St := State Float
+
+inductive Item where
+  | op (o : Op Float)
+  | mom (k : Nat) (N w : List Float)
+
+def optNat : P (Option Nat) := do
+  let t ← tok
+  if t == "none" then pure none else match t.toNat? with | some n => pure (some n) | none => failure
+
+def item : P Item := do
+  let t ← tok
+  match t with
+  | "reset" => do let b ← bool; pure (.op (.reset b))
+  | "add" => do let k ← nat; pure (.op (.add k))
+  | "change" => do
+      let a ← flt; let b ← flt; let n ← optNat; let r ← bool
+      pure (.op (.change a b n r))
+  | "adjust" => do let b ← bool; pure (.op (.adjust b))
+  | "update" => do let l ← flts; pure (.op (.update l))
+  | "backup" => pure (.op .backup)
+  | "revert" => pure (.op .revert)
+  | "setpsd" => do let l ← flts; pure (.op (.setPsd l))
+  | "load" => do let l ← flts; pure (.op (.load l))
+  | "adaptive" => do let b ← bool; pure (.op (.setAdaptive b))
+  | "mom" => do let k ← nat; let n ← flts; let w ← flts; pure (.mom k n w)
+  | _ => failure
+
+def sameBits (a b : List Float) : Bool :=
+  a.length == b.length && (a.zip b).all (fun xy => xy.1.toBits == xy.2.toBits)
+
+def arr (prev : Option (List Float)) (x : List Float) : String :=
+  match prev with
+  | some p => if sameBits p x then "=" else flist x
+  | none => flist x
+
+def dump (prev : Option St) (s : St) : String :=
+  " ".intercalate [fout s.min, fout s.max, toString s.bins, bstr s.adaptive,
+    arr (prev.map (·.psd)) s.psd, arr (prev.map (·.bounds)) s.bounds, arr (prev.map (·.size)) s.size,
+    arr (prev.map (·.prevPsd)) s.prevPsd, arr (prev.map (·.prevBounds)) s.prevBounds]
+
+def optNatStr : Option Nat → String
+  | none => "none"
+  | some n => toString n
+
+/-- apply one item; `none` state = an operation raised -/
+def apply (s : St) : Item → Option St × String
+  | .mom k N w =>
+    (some s, " ".intercalate ["Q", fout (momentFromN s N k), fout (weightedMomentFromN s N k w),
+      flist (cumulativeMomentFromN s N k), flist (cumulativeWeightedMomentFromN s N k w),
+      fout (momentFromN s N 0), fout (momentFromN s N 1), fout (momentFromN s N 2), fout (momentFromN s N 3)])
+  | .op (.adjust c) =>
+    match adjust s c with
+    | none => (none, "E")
+    | some (s', chg, ni) => (some s', "S " ++ dump (some s) s' ++ " R " ++ bstr chg ++ " " ++ optNatStr ni)
+  | .op o =>
+    match step s o with
+    | none => (none, "E")
+    | some s' => (some s', "S " ++ dump (some s) s')
+
+def runItems (s : St) (items : List Item) : Array String := Id.run do
+  let mut cur : Option St := some s
+  let mut out : Array String := #[]
+  for it in items do
+    match cur with
+    | none => pure ()
+    | some c =>
+      let (n, str) := apply c it
+      out := out.push str
+      cur := n
+  return out
+
+def gridRun : P String := do
+  let cMin ← flt; let cMax ← flt; let bins ← nat; let minB ← nat; let maxB ← nat
+  let items ← lst item
+  let s0 : St := init cMin cMax bins minB maxB
+  let head := " ".intercalate ["I", fout s0.origMin, fout s0.origMax, toString s0.origBins,
+    toString s0.minBins, toString s0.maxBins, dump none s0]
+  pure (" ".intercalate (head :: (runItems s0 items).toList))
 
 def handle (verb : String) : Option (P String) :=
   match verb with
+  | "grid.run" => some gridRun
   | _ => none
 
 end KawinV.Drv.C08
